@@ -121,3 +121,64 @@ pub fn kind_name(k: &interp::EKind) -> String {
     let s = format!("{k:?}");
     s.split(|c: char| !c.is_ascii_alphanumeric()).next().unwrap_or("").to_string()
 }
+
+// ------------------------------------------------------------ batching
+
+// A self-contained group of statements that is expected to run to completion
+// and print exactly `expect`. Many of them are run per process, each inside
+// its own function so that scopes do not leak; if a batch disagrees, its
+// members are re-run one by one to find the culprit(s).
+#[derive(Clone, Debug)]
+pub struct Snippet {
+    pub body: String,
+    pub expect: String,
+    pub nontrivial: bool,
+    pub note: String,
+}
+
+pub fn snippet_case(property: &str, kind: &str, s: &Snippet) -> Case {
+    Case{
+        property: property.to_string(), kind: kind.to_string(),
+        srcs: vec![format!("{}\n", s.body.trim_end()).into_bytes()],
+        pred: Pred::Expect(Expect::ok(s.expect.clone().into_bytes())),
+        note: s.note.clone(),
+    }
+}
+
+pub fn judge_snippets(ctx: &Ctx, kind: &str, snippets: &[Snippet], per_batch: usize) {
+    use rayon::prelude::*;
+    let chunks: Vec<&[Snippet]> = snippets.chunks(per_batch.max(1)).collect();
+    chunks.par_iter().for_each(|chunk| {
+        if ctx.stopped() {
+            return;
+        }
+        let mut src = String::new();
+        let mut expect = String::new();
+        for (i, s) in chunk.iter().enumerate() {
+            src.push_str(&format!("fn c{i}() {{\n{}\n}}\nc{i}()\n", s.body.trim_end()));
+            expect.push_str(&s.expect);
+        }
+        let o = crate::backend::run_cli(src.as_bytes());
+        if o.ok() && o.out == expect.as_bytes() && o.err.is_empty() {
+            for s in chunk.iter() {
+                ctx.count(&snippet_case(&ctx.property, kind, s), s.nontrivial);
+            }
+            return;
+        }
+        for s in chunk.iter() {
+            if ctx.stopped() {
+                return;
+            }
+            ctx.judge(&snippet_case(&ctx.property, kind, s), s.nontrivial, Via::Cli, None);
+        }
+    });
+}
+
+// Source text of an integer constant (the minimum has no literal).
+pub fn int_src(v: i64) -> String {
+    if v == i64::MIN {
+        "(-9223372036854775807 - 1)".to_string()
+    } else {
+        v.to_string()
+    }
+}
